@@ -1,7 +1,8 @@
 /-
   GenPlannerFx — the translated planner of one-way sync, as an EFFECT unit
   (`SyModel/Generated/Code/PlannerFx.lean`, regenerated on every run from src/sync/strategy.rs:
-  `StrategyPlanner::{plan_file_async, compute_checksums_local, needs_update, mtime_matches, plan_deletions}`),
+  `StrategyPlanner::{plan_file_async, compute_checksums_local, needs_update, mtime_matches, plan_deletions}` and
+  src/sync/mod.rs `SyncEngine::plan_symlink`),
   computes the handwritten engine model's `planEntry` / `planFileAct` / `planEntryDb` / `planDeletions`
   (`Engine/Model.lean`, `Engine/Caches.lean`) that C01, C03, C06, C18 are about.
 
@@ -24,6 +25,12 @@
     * `hsrc` — with `--checksum` the source file is a readable regular file (it was just scanned; otherwise see
       `plan_file_async_unreadable_source_updates`);
     * `CleanKeys w` — the destination keys are paths a walk can produce (non-empty components without `/`);
+    * for `plan_symlink`: `file.is_symlink = true` (the caller's guard, src/sync/mod.rs:538), in preserve mode
+      `symlink_target = Some(text)` (the scanner read the link; otherwise `plan_symlink_preserve_no_target`), in follow
+      mode `file.is_dir = false` (the lstat kind of a link) and, with a database, no matching row on either side
+      (`planEntryDb` does not consult the database for link entries).  `absLinkEntry` maps the entry to
+      `.symlink text tgt` with `tgt` = what `std::fs::metadata(file.path)` finds (xattrs/inode of the target are
+      not carried by the generated entry and are mapped as `absMeta` maps them);
     * for `planEntryDb`: `src.path = srcRoot.join(relative_path)` (the scanner's invariant) and `hmiss`: the
       database has no matching row for the DESTINATION path.  `planEntryDb` does not model the destination-side lookup
       of `compute_checksums_local`; `plan_file_async_db_dest_row_differs` is the concrete disagreement.
@@ -289,6 +296,149 @@ theorem plan_file_async_unreadable_source_updates (p : StrategyPlanner) (hp : Fr
     | dir => simp [decideAct, StrategyPlanner.needs_update, hck, Id.run, Rs.ok]
     | file sm => exact absurd hst (hsrc sm)
 
+/-! ### `SyncEngine::plan_symlink` = the `.symlink` arm of `planEntry` -/
+
+/-- `plan_symlink` never returns `Err` — every mode, planner, entry, world, database handle. -/
+theorem plan_symlink_never_fails (eng : SyncEngine) (file : FileEntry) (w : PlanWorld) (p : StrategyPlanner)
+    (db : Option Rs.Opaque) : ∃ task, (runM (eng.plan_symlink extOf file w.root p db) w).1 = .ok task :=
+  ⟨_, by rw [plan_symlink_run]⟩
+
+/-- `plan_symlink` leaves the world as it found it. -/
+theorem plan_symlink_read_only (eng : SyncEngine) (file : FileEntry) (w : PlanWorld) (p : StrategyPlanner)
+    (db : Option Rs.Opaque) : (runM (eng.plan_symlink extOf file w.root p db) w).2 = w := by
+  rw [plan_symlink_run]
+
+/-- BRIDGE (skip mode): nothing is probed, the task is Skip with nothing to transfer — the model's `.skip` arm. -/
+theorem plan_symlink_skip_eq_model (eng : SyncEngine) (hm : eng.symlink_mode = .Skip) (file : FileEntry)
+    (hl : file.is_symlink = true) (w : PlanWorld) (p : StrategyPlanner) (db : Option Rs.Opaque)
+    (cfg : Cfg) (hc : cfg.links = absLinkMode eng.symlink_mode) :
+    ∃ task, runM (eng.plan_symlink extOf file w.root p db) w = (.ok task, w) ∧
+      absLinkTask eng.symlink_mode w task = planEntry cfg w.dst (absLinkEntry w file) := by
+  refine ⟨_, plan_symlink_run eng file w p db, ?_⟩
+  rw [hm] at hc
+  simp only [linkPlan, hm, simpleTask, absLinkTask, hl, ↓reduceIte, planEntry, absLinkEntry, hc, absLinkMode,
+    relOf_join, Option.getD_some, absAct]
+
+/-- BRIDGE (preserve mode): the destination entry ITSELF is looked at (`read_link` does not follow; `exists` is only
+    asked when there is no link there): nothing ⇒ create, a link with the same text ⇒ skip, a link with another text /
+    a file / a directory ⇒ update — the model's `.preserve` arm, for EVERY destination (no `NotLinkAt`). -/
+theorem plan_symlink_preserve_eq_model (eng : SyncEngine) (hm : eng.symlink_mode = .Preserve) (file : FileEntry)
+    (hl : file.is_symlink = true) (text : Rs.Path) (ht : file.symlink_target = some text)
+    (w : PlanWorld) (p : StrategyPlanner) (db : Option Rs.Opaque)
+    (cfg : Cfg) (hc : cfg.links = absLinkMode eng.symlink_mode) :
+    ∃ task, runM (eng.plan_symlink extOf file w.root p db) w = (.ok task, w) ∧
+      absLinkTask eng.symlink_mode w task = planEntry cfg w.dst (absLinkEntry w file) := by
+  refine ⟨_, plan_symlink_run eng file w p db, ?_⟩
+  rw [hm] at hc
+  simp only [linkPlan, hm, simpleTask, absLinkTask, hl, ↓reduceIte, planEntry, absLinkEntry, hc, absLinkMode,
+    relOf_join, Option.getD_some, preserveAct, linkAt_join, existsAt_join, PlanWorld.resolve, linkText, ht]
+  cases hg : w.dst.get? (compsOf file.relative_path) with
+  | none => simp [absAct]
+  | some n =>
+    cases n with
+    | dir => simp [absAct]
+    | file d => simp [absAct]
+    | symlink t =>
+      simp only [Task.mk.injEq, and_true]
+      by_cases hq : t = String.ofList text
+      · subst hq; simp [String.toList_ofList, absAct]
+      · have : ¬ t.toList = text := fun h => hq (by rw [← h, String.ofList_toList])
+        simp [hq, this, absAct]
+
+/-- preserve mode for an entry whose link text the scanner could not read (`symlink_target = None`: the link
+    vanished between `lstat` and `readlink`): never Skip — Create over nothing, Update over anything. -/
+theorem plan_symlink_preserve_no_target (eng : SyncEngine) (hm : eng.symlink_mode = .Preserve) (file : FileEntry)
+    (ht : file.symlink_target = none) (w : PlanWorld) (p : StrategyPlanner) (db : Option Rs.Opaque) :
+    ∃ task, runM (eng.plan_symlink extOf file w.root p db) w = (.ok task, w) ∧
+      task.action = (if w.dst.get? (compsOf file.relative_path) = none then .Create else .Update) := by
+  refine ⟨_, plan_symlink_run eng file w p db, ?_⟩
+  simp only [linkPlan, hm, simpleTask, preserveAct, linkAt_join, existsAt_join, PlanWorld.resolve, ht]
+  cases hg : w.dst.get? (compsOf file.relative_path) with
+  | none => simp
+  | some n =>
+    cases n with
+    | dir => simp
+    | file d => simp
+    | symlink t => simp
+
+/-- BRIDGE (follow mode): `std::fs::metadata(file.path)` follows the source link; its answer is the model's `tgt`.
+    A regular-file target is planned as that file through `plan_file_async` (size and mtime of the TARGET, content of
+    the target, inode `None`, nlink 1) — the model's `planFileAct cfg m (dst.get? rel)` with payload `.file m 1`; a
+    directory target or a dangling link ⇒ Skip with nothing to transfer.  Hypotheses as for files: `FromCli`,
+    `NotLinkAt` (the symlink case of the model's `planFileAct` is the engine's fix-up, `…_follow_over_link_fixup`),
+    the lstat kind of a link is not "directory", and — with a database — no matching row on either side
+    (`planEntryDb` does not consult the database for link entries). -/
+theorem plan_symlink_follow_eq_model (eng : SyncEngine) (hm : eng.symlink_mode = .Follow) (file : FileEntry)
+    (hl : file.is_symlink = true) (hnd : file.is_dir = false) (w : PlanWorld) (p : StrategyPlanner) (hp : FromCli p)
+    (db : Option Rs.Opaque) (hnl : NotLinkAt w (compsOf file.relative_path))
+    (hmissS : db.isSome = true → ∀ d, w.stat file.path = .file d →
+      w.dbSeen file.path d.mtime d.size ['f', 'a', 's', 't'] = none)
+    (hmissD : db.isSome = true → ∀ d, w.dst.get? (compsOf file.relative_path) = some (.file d) →
+      w.dbSeen (Rs.join w.root file.relative_path) d.mtime d.size ['f', 'a', 's', 't'] = none)
+    (cfg : Cfg) (hc : cfg.links = absLinkMode eng.symlink_mode) (hcmp : cfg.compare = modeOf p) :
+    ∃ task, runM (eng.plan_symlink extOf file w.root p db) w = (.ok task, w) ∧
+      absLinkTask eng.symlink_mode w task = planEntry cfg w.dst (absLinkEntry w file) ∧
+      absLinkTask eng.symlink_mode w task = planEntryDb cfg w.db w.dst (absLinkEntry w file) := by
+  refine ⟨_, plan_symlink_run eng file w p db, ?_⟩
+  have hdb : planEntryDb cfg w.db w.dst (absLinkEntry w file) = planEntry cfg w.dst (absLinkEntry w file) := rfl
+  rw [hdb, and_self]
+  rw [hm] at hc
+  simp only [linkPlan, hm, PlanWorld.metaAt, planEntry, absLinkEntry, hc, absLinkMode]
+  cases hs : w.stat file.path with
+  | dangling => simp [simpleTask, absLinkTask, hl, absTarget, relOf_join, absAct]
+  | dir => simp [simpleTask, absLinkTask, hl, absTarget, relOf_join, absAct]
+  | file d =>
+    have hstat : w.stat (followEntry file ⟨false, d.mtime, d.size⟩).path = .file d := hs
+    have h := planAt_file_eq_planFileAct w p hp (followEntry file ⟨false, d.mtime, d.size⟩) db.isSome hnd
+      (fun _ => ⟨d, hstat⟩) cfg hcmp
+    have hrel : (followEntry file ⟨false, d.mtime, d.size⟩).relative_path = file.relative_path := rfl
+    rw [hrel, stat_join] at h
+    have hsrcSeen : seenOr w db.isSome (followEntry file ⟨false, d.mtime, d.size⟩).path
+        (followEntry file ⟨false, d.mtime, d.size⟩).modified (followEntry file ⟨false, d.mtime, d.size⟩).size
+        (w.contentAt (followEntry file ⟨false, d.mtime, d.size⟩).path) = d.content := by
+      show seenOr w db.isSome file.path d.mtime d.size (w.contentAt file.path) = d.content
+      unfold seenOr PlanWorld.contentAt
+      rw [hs]
+      cases hdbs : db.isSome
+      · rfl
+      · simp [hmissS hdbs d hs]
+    have hdstSeen : seenNode w db.isSome (Rs.join w.root file.relative_path) (w.resolve (compsOf file.relative_path))
+        = w.dst.get? (compsOf file.relative_path) := by
+      cases hdbs : db.isSome
+      · exact seenNode_resolve_noDb w _ _ hnl
+      · exact seenNode_resolve_miss w true _ _ hnl (hmissD hdbs)
+    rw [hsrcSeen, hdstSeen] at h
+    have hmeta : withContent (absMeta w (followEntry file ⟨false, d.mtime, d.size⟩)) d.content =
+        { content := d.content, size := d.size, mtime := d.mtime, xattrs := [], ino := 0 } := rfl
+    rw [hmeta] at h
+    simp only [Bool.false_eq_true, ↓reduceIte, absLinkTask, absTarget, relOf_join, Option.getD_some, h]
+    have hm2 : absMeta w (followEntry file ⟨false, d.mtime, d.size⟩) =
+        { content := d.content, size := d.size, mtime := d.mtime, xattrs := [], ino := 0 } := by
+      simp [absMeta, followEntry, PlanWorld.contentAt, hs]
+    have hsym : (followEntry file ⟨false, d.mtime, d.size⟩).is_symlink = false := rfl
+    have hdir : (followEntry file ⟨false, d.mtime, d.size⟩).is_dir = false := hnd
+    have hnl1 : (followEntry file ⟨false, d.mtime, d.size⟩).nlink = 1 := rfl
+    simp only [hsym, hdir, hnl1, hm2, Bool.false_eq_true, ↓reduceIte]
+
+/-- BRIDGE (follow mode over a destination symlink): the dereferenced entry is not a symlink, so the engine's fix-up
+    (src/sync/mod.rs:547-556, `fixupOverLink`) applies; after it the answer is the model's
+    `planFileAct … (some (.symlink _)) = update`, whatever either link resolves to. -/
+theorem plan_symlink_follow_over_link_fixup (eng : SyncEngine) (hm : eng.symlink_mode = .Follow) (file : FileEntry)
+    (hnd : file.is_dir = false) (w : PlanWorld) (p : StrategyPlanner) (db : Option Rs.Opaque) (d : FileMeta)
+    (hs : w.stat file.path = .file d) (text : String)
+    (hl : w.dst.get? (compsOf file.relative_path) = some (.symlink text)) (cfg : Cfg) (m : FileMeta) :
+    ∃ task, runM (eng.plan_symlink extOf file w.root p db) w = (.ok task, w) ∧
+      (∀ s, task.source = some s → s.is_symlink = false) ∧
+      absAct (fixupOverLink task.action) = planFileAct cfg m (w.dst.get? (compsOf file.relative_path)) := by
+  refine ⟨_, plan_symlink_run eng file w p db, ?_, ?_⟩
+  · simp only [linkPlan, hm, PlanWorld.metaAt, hs, Bool.false_eq_true, ↓reduceIte]
+    intro s h; cases h; rfl
+  · rw [hl]
+    simp only [linkPlan, hm, PlanWorld.metaAt, hs, Bool.false_eq_true, ↓reduceIte]
+    show absAct (fixupOverLink (planAt w p _ db.isSome).1) = .update
+    rcases planAt_file_act w p (followEntry file ⟨false, d.mtime, d.size⟩) db.isSome with h | h | h <;>
+      rw [h] <;> rfl
+
 /-! ### `plan_deletions` -/
 
 /-- `plan_deletions` never fails and changes nothing (it returns a `Vec`, not a `Result`; a failing scan gives no
@@ -475,6 +625,34 @@ example : (runM ((exPlanner false).plan_file_async extOf (exEntry "sub" 5 0 fals
 example : ((runM ((exPlanner false).plan_deletions extOf [exEntry "a" 3 5000000000 false, exEntry "c" 1 1 false]
       "d".toList) exWorld).1.toOption.getD []).map (·.dest_path)
     = ["d/sub".toList, "d/sub/b".toList, "d/l".toList] := by decide
+
+/-- a source symlink entry `rel → text` -/
+def exLink (rel text : String) : FileEntry :=
+  { exEntry rel 1 9 false with is_symlink := true, symlink_target := some text.toList }
+
+/-- `plan_symlink` RUN on the example: the destination has the link `l → a`: same text ⇒ Skip, other text ⇒ Update,
+    no entry ⇒ Create; over the regular file `a` ⇒ Update; skip mode ⇒ Skip; follow mode: `s/c` read through a link
+    named `c` is a new file (planned with the target's size and mtime), a dangling link is skipped. -/
+example : ((runM (SyncEngine.plan_symlink extOf ⟨.Preserve, ⟨⟩⟩ (exLink "l" "a") "d".toList (exPlanner false) none)
+    exWorld).1.toOption.map (·.action)) = some .Skip := by decide
+example : ((runM (SyncEngine.plan_symlink extOf ⟨.Preserve, ⟨⟩⟩ (exLink "l" "b") "d".toList (exPlanner false) none)
+    exWorld).1.toOption.map (·.action)) = some .Update := by decide
+example : ((runM (SyncEngine.plan_symlink extOf ⟨.Preserve, ⟨⟩⟩ (exLink "n" "a") "d".toList (exPlanner false) none)
+    exWorld).1.toOption.map (·.action)) = some .Create := by decide
+example : ((runM (SyncEngine.plan_symlink extOf ⟨.Preserve, ⟨⟩⟩ (exLink "a" "a") "d".toList (exPlanner false) none)
+    exWorld).1.toOption.map (·.action)) = some .Update := by decide
+example : ((runM (SyncEngine.plan_symlink extOf ⟨.Skip, ⟨⟩⟩ (exLink "n" "a") "d".toList (exPlanner false) none)
+    exWorld).1.toOption.map (·.action)) = some .Skip := by decide
+example : ((runM (SyncEngine.plan_symlink extOf ⟨.Follow, ⟨⟩⟩ (exLink "c" "elsewhere") "d".toList (exPlanner false)
+    none) exWorld).1.toOption.map (fun t => (t.action, t.source.map (fun s => (s.size, s.modified, s.is_symlink)))))
+    = some (.Create, some (1, 1, false)) := by decide
+example : ((runM (SyncEngine.plan_symlink extOf ⟨.Follow, ⟨⟩⟩ (exLink "n" "nowhere") "d".toList (exPlanner false)
+    none) exWorld).1.toOption.map (·.action)) = some .Skip := by decide
+example : NotLinkAt exWorld (compsOf (exLink "c" "elsewhere").relative_path) := by
+  intro t h
+  have : compsOf (exLink "c" "elsewhere").relative_path = ["c"] := by decide
+  rw [this] at h
+  simp [exWorld, Map.get?] at h
 
 /-- DISAGREEMENT with `planEntryDb` (model gap, see the report): `compute_checksums_local` also asks the database
     about the DESTINATION path (keyed by the destination's current mtime and size).  A world in which that lookup
